@@ -240,7 +240,30 @@ def describe_switch(body, d):
             return ('disc-call', dl[1].path or dl[1].decl)
         return ('disc', ty)
     if dd[0] == 'call':
+        # `x.is_some()` / `x.is_none()` / `r.is_ok()` / `r.is_err()` decide what `match x` decides: the discriminant of x
+        if dd[1].matches(r'^std::option::Option::<T>::(is_some|is_none)$|^std::result::Result::<T, E>::(is_ok|is_err)$') and dd[1].args:
+            a0 = dd[1].args[0]
+            base = direct_def(body, a0)
+            if base[0] == 'stmt' and base[1]['rv']['k'] == 'ref':
+                fs = [e[2] for e in base[1]['rv']['p'][1] if isinstance(e, list) and e[0] == 'F']
+                if fs and not fs[-1].isdigit():
+                    return ('disc-field', fs[-1]) if False else ('disc', body.local_ty(op_local(a0)) + ' .' + fs[-1])
+            l0 = op_local(a0)
+            if l0 is not None:
+                return ('disc', body.local_ty(l0))
         return ('call', dd[1].path or dd[1].decl)
+    if dd[0] == 'stmt' and dd[1]['rv']['k'] == 'un' and dd[1]['rv'].get('op') == 'Not':
+        # `if !x.is_some()`: the same decision with the branches swapped
+        inner = dict(body.blocks[d])
+        l = op_local(dd[1]['rv']['a'])
+        if l is not None:
+            fake = {'term': {'k': 'switch', 'op': dd[1]['rv']['a']}}
+            saved = body.blocks[d]
+            body.blocks[d] = dict(saved, term=dict(saved['term'], op=dd[1]['rv']['a']))
+            try:
+                return describe_switch(body, d)
+            finally:
+                body.blocks[d] = saved
     if dd[0] == 'stmt' and dd[1]['rv']['k'] == 'bin':
         return ('cmp', dd[1]['rv']['op'])
     return (dd[0], '')
